@@ -73,6 +73,7 @@ def run(rep, prog, tier, scope_fn=in_scope, pid_rule='R20'):
         selfname = (params_of(f.node)[0] or [None])[0] if f.cls is not None else None
         muts = {p: s for p, s in sm.mut.items() if not (p == selfname and f.cls is not None)}
         if isinstance(f.node, ast.FunctionDef) and getattr(f.node, 'name', '').startswith('_') and not getattr(f.node, 'name', '').startswith('__'): muts = {}      # private helper: what it does to a caller's argument is charged to the public caller's summary
+        if f.cls is not None and f.cls.name.startswith('_') and not f.cls.name.startswith('__'): muts = {}          # method of a private helper class: likewise charged to the public caller
         if muts:
             for p, s in sorted(muts.items()):
                 rep.ob(f'{pid_rule}.param', f'{q}({p})', False, f'writes to an object owned by its parameter `{p}`: {s}', f.site)
